@@ -6,6 +6,6 @@ CONSTANTS
   MaxConn = 3
   MaxOps = 1
   MaxEnv = 1
-  Fixes <- MCFixes
-INVARIANTS AfterCloseStrict
+  Fixes <- MCNoSshCloseAll
+INVARIANTS AfterClose
 CHECK_DEADLOCK FALSE
